@@ -179,6 +179,7 @@ func fieldTypes(fl *ast.FieldList) []string {
 type svar struct {
 	goName, lean, typ string
 	depth             int
+	param             bool // a parameter of the function (its maps belong to the caller)
 }
 
 type senv struct {
@@ -226,7 +227,7 @@ func (e senv) declare(goName, typ string) (senv, string) {
 	}
 	n := make([]svar, len(e.vars), len(e.vars)+1)
 	copy(n, e.vars)
-	return senv{append(n, svar{goName, lean, typ, e.depth}), e.depth}, lean
+	return senv{append(n, svar{goName: goName, lean: lean, typ: typ, depth: e.depth}), e.depth}, lean
 }
 
 var sReserved = map[string]bool{"env": true, "σ": true, "β": true, "B": true, "ε": true, "Loop": true, "GoMap": true,
@@ -277,6 +278,7 @@ type strans struct {
 	sortElem map[string]string // inside a sort.Slice closure: "S[i]" -> Lean variable
 	noEffect bool              // inside a closure: no assignment to outer variables, no effects
 	clDepth  int               // scope depth of the closure body
+	appendTo string            // the variable being assigned by the current `l = append(l, e)`
 }
 
 // per group
@@ -785,6 +787,10 @@ func (x *strans) call(e *ast.CallExpr, en senv) (sval, *seffect) {
 		case "append":
 			if len(e.Args) != 2 || e.Ellipsis.IsValid() {
 				fail("unsupported append form %s", norm(src(e)))
+			}
+			if idName(e.Args[0]) == "" || idName(e.Args[0]) != x.appendTo {
+				// `a := append(l, x); b := append(l, y)` share a backing array in Go; lists are values here
+				fail("append is supported as `l = append(l, e)` only (%s)", norm(src(e)))
 			}
 			l := x.expr(e.Args[0], en, "")
 			li := x.g.typeInfo(l.typ)
